@@ -36,6 +36,7 @@ Section ValInd.
   Hypothesis HOpq : forall o, P (VOpq o).
   Hypothesis HNil : P VNil.
   Hypothesis HPtr : forall v, P v -> P (VPtr v).
+  Hypothesis HRef : forall a i v, P v -> P (VRef a i v).
   Hypothesis HSlice : forall a l, Forall P l -> P (VSlice a l).
   Hypothesis HWrap : forall w v, P v -> P (VWrap w v).
   Hypothesis HFld : forall t k i s x, P x -> P (VFld t k i s x).
@@ -47,6 +48,7 @@ Section ValInd.
     | VC128 r i => HC128 r i | VC64 r i => HC64 r i | VStr s => HStr s | VBytes n s => HBytes n s
     | VTime t => HTime t | VLoc l => HLoc l | VOpq o => HOpq o | VNil => HNil
     | VPtr u => HPtr u (val_ind' u)
+    | VRef a i u => HRef a i u (val_ind' u)
     | VSlice a l =>
         HSlice a l ((fix go (l : list val) : Forall P l :=
                        match l with
@@ -215,9 +217,9 @@ Proof.
   unfold addto_fuel, exp_dict. remember (S (val_depth (VSlice a l))) as n eqn:En. clear En.
   assert (E : addto T (S n) (dict_field k (VSlice a l)) =
               option_map (fun d => [(($"AddObject"), k, d)])
-                (option_map VCalls (oconcat (fun x => match field_of_val x with Some f => addto T n f | None => None end) l))).
+                (option_map VCalls (oconcati (fun _ x => match field_of_val x with Some f => addto T n f | None => None end) 0 l))).
   { reflexivity. }
-  rewrite E. destruct (oconcat _ l); reflexivity.
+  rewrite E. destruct (oconcati _ 0 l); reflexivity.
 Qed.
 
 Lemma dict_names : forall c, In c (t_ctors T) -> is_dict c = true ->
@@ -231,6 +233,38 @@ Proof.
   - apply orb_true_iff in Hn as [Hn|Hn]; apply bytes_eqb_eq in Hn; [left|right]; exact Hn.
   - destruct (c_param c); try discriminate. destruct g; try discriminate. reflexivity.
 Qed.
+
+(* ==================== ObjectValues: the caller's own elements, by address ==================== *)
+(* what an array encoder is handed for the slice (identity a, elements l) from position i on: for
+   each element, in order, the address of THAT element of THAT slice *)
+Fixpoint refs_from (m : name) (a i : Z) (l : list val) : list call :=
+  match l with
+  | [] => []
+  | x :: r => (m, [], VRef a i x) :: refs_from m a (Z.succ i) r
+  end.
+
+Lemma refs_loop A m a : forall l i,
+  oconcati (loop1 A (LAppendErr m EElemAddr) a) i l = Some (refs_from m a i l).
+Proof.
+  induction l as [|x l IH]; intros i; [reflexivity|].
+  cbn [oconcati refs_from]. rewrite IH. reflexivity.
+Qed.
+
+(* for EVERY slice -- any identity, any length, any elements, aliasing windows included -- the Field
+   is built, AddTo does not panic, and the array encoder receives, in order, one AppendObject per
+   element whose argument is the address of that very element of the caller's slice *)
+Theorem object_values_thm : forall stack k a l,
+  exists f, construct T ctor_fuel stack ($"ObjectValues") k (VSlice a l) = Some f /\
+            addto T (addto_fuel (VSlice a l)) f = Some [(($"AddArray"), k, VCalls (refs_from ($"AppendObject") a 0 l))].
+Proof.
+  intros stack k a l. eexists. split; [reflexivity|].
+  unfold addto_fuel. remember (S (val_depth (VSlice a l))) as n eqn:En. clear En.
+  cbn. unfold run_loop. rewrite refs_loop. reflexivity.
+Qed.
+
+(* a pointer to a copy is never the address of the element, whatever the copy holds *)
+Lemma copy_is_not_element a i x y : VPtr y <> VRef a i x.
+Proof. discriminate. Qed.
 
 (* ==================== Equals on the Fields the constructors build ==================== *)
 Definition built (stack : bytes) (c : ctor) (k : bytes) (v : val) (f : field) : Prop :=
@@ -541,6 +575,7 @@ Proof.
   - destruct n; reflexivity.
   - destruct t; reflexivity.
   - destruct o as [a b c d e f g]. cbn. destruct d, e; reflexivity.
+  - rewrite IHv. reflexivity.
   - rewrite IHv. reflexivity.
   - f_equal. rewrite map_map. induction H as [|x l Hx Hl IH]; [reflexivity|]. cbn. rewrite Hx, IH. reflexivity.
   - rewrite IHv. reflexivity.
